@@ -145,6 +145,12 @@ class ReducerWorld(World):
             cfg["target"] = 1.0   # a boolean target with a tolerance is not a meaningful configuration
         if kind in ("passthrough", "ema", "ca") or "scaled" in kind or "cond" in kind:
             cfg["obskind"] = "real"
+        # a third of the recorded reducers reach their step time / duration through the property setters before the run starts
+        via = stream(seed, "via")
+        cfg["via"] = None
+        if not kind.startswith("fn_") and via.random() < 0.33:
+            dt0 = via.choice(DTS)
+            cfg["via"] = {"dt0": dt0, "duration0": (via.choice([0, 1, 3, 2.5]) * dt0) if cfg["duration"] else 0.0, "order": via.choice(["dt_duration", "duration_dt"])}
         n = size_formula(dt, cfg["duration"], cfg["inclusive"])
         numel = int(np.prod(shape))
         ops = []
@@ -183,11 +189,19 @@ class ReducerWorld(World):
         return {"config": cfg, "ops": ops}
 
     # ------------------------------------------------------------------
-    def _build(self, cfg, inplace):
+    def _build(self, cfg, inplace, direct=False):
         import inferno
         from inferno import observe as ob
 
         k, dt = cfg["kind"], cfg["dt"]
+        via = cfg.get("via")
+        if via and not direct:
+            red = self._build(dict(cfg, dt=via["dt0"], duration=via["duration0"]), inplace, direct=True)
+            for a in via["order"].split("_"):
+                if a == "dt" or cfg["duration"]:
+                    setattr(red, a, cfg[a])
+            red.clear()
+            return red
         kw = dict(duration=cfg["duration"], inclusive=cfg["inclusive"], inplace=inplace)
         if k == "nearest":
             return ob.NearestTraceReducer(dt, cfg["tau"], cfg["amp"], cfg["target"], cfg["tol"], **kw)
@@ -236,7 +250,9 @@ class ReducerWorld(World):
         fn = kind.startswith("fn_")
         n = size_formula(dt, cfg["duration"], cfg["inclusive"])
         model = _Closed(cfg)
-        facts = {"kind": kind, "dt": dt, "n": n, "obskind": cfg["obskind"]}
+        facts = {"kind": kind, "dt": dt, "n": n, "obskind": cfg["obskind"], "via_setters": bool(cfg.get("via"))}
+        if cfg.get("via"):
+            ctx.fault("configured_through_setters")
         if not fn:
             with ctx.impl("reducer()", facts):
                 red = self._build(cfg, False)
@@ -360,7 +376,7 @@ class ReducerWorld(World):
                 model.clear()
                 recorded = []
                 cleared_before = True
-                fresh = self._build(cfg, False)
+                fresh = self._build(cfg, False, direct=True)
                 ctx.log("clear", op["keepshape"])
                 with ctx.impl("peek after clear", facts):
                     got = red.peek()
